@@ -49,6 +49,7 @@ func c10Plan(tier string, seed uint64) (jobs []rt.Job) {
 			add("sweep", 2, map[string]interface{}{"size": size, "pos": p})
 		}
 	}
+	add("extreme", 2, map[string]interface{}{"n": 300})
 	nr := 4
 	if !q {
 		nr = 32
@@ -210,6 +211,51 @@ func c10Run(j *rt.Job, seed uint64, r *rt.Rec) {
 			r.Distinct(rt.Hex(b[:12]), size)
 		}
 		r.Sample(map[string]interface{}{"random_strings": j.Int("n"), "sizes": []int{48, 51}})
+	case "extreme":
+		// phrases at the extremes of total length: only longest words, only shortest words, one word repeated,
+		// first / last table entries
+		byLen := map[int][]int{}
+		minL, maxL := 99, 0
+		for i, w := range qrl.WordList {
+			byLen[len(w)] = append(byLen[len(w)], i)
+			if len(w) < minL {
+				minL = len(w)
+			}
+			if len(w) > maxL {
+				maxL = len(w)
+			}
+		}
+		for t := 0; t < j.Int("n"); t++ {
+			size := []int{48, 51}[t%2]
+			words := size * 8 / 12
+			b := make([]byte, size)
+			var pool []int
+			switch t % 6 {
+			case 0, 1:
+				pool = byLen[maxL]
+			case 2:
+				pool = byLen[minL]
+			case 3:
+				pool = []int{rng.Intn(4096)}
+			case 4:
+				pool = []int{0, 4095}
+			default:
+				pool = append(append([]int{}, byLen[maxL]...), byLen[minL]...)
+			}
+			for pos := 0; pos < words; pos++ {
+				setGroup(b, pos, pool[rng.Intn(len(pool))])
+			}
+			r.Eval(1)
+			if why := c10RoundTrip(codec, b); why != "" {
+				r.Violate(fmt.Sprintf("C10/roundtrip/%d", size), why+" (phrase built only from longest / shortest / repeated / first-and-last table words)", c10Case{"c10rt", rt.Hex(b), "", size}, "", "")
+				return
+			}
+			p, _ := libEncode(b)
+			r.Max("max_phrase_length_seen", int64(len(p)))
+			r.Distinct("extreme", rt.Hex(b), size)
+		}
+		r.Observe("word_lengths", fmt.Sprintf("min=%d max=%d longest_words=%d", minL, maxL, len(byLen[maxL])))
+		r.Sample(map[string]interface{}{"extreme_phrases": j.Int("n"), "longest_word_len": maxL, "shortest_word_len": minL})
 	case "block24":
 		step := j.Int("step")
 		if step == 0 {
@@ -347,6 +393,31 @@ func c10Strict(j *rt.Job, rng *rt.Rand, codec *mnemref.Codec, r *rt.Rec) {
 			if !c10Judge(r, codec, "spacing-case", p, size) {
 				return
 			}
+		}
+		// valid words, right count, but some separators are not a single blank
+		for _, sep := range []string{"\t", "\n", "\r\n", "  ", "\v", "\u00a0", ""} {
+			w := cp()
+			at := 1 + rng.Intn(len(w)-1)
+			p := strings.Join(w[:at], " ") + sep + strings.Join(w[at:], " ")
+			if !c10Judge(r, codec, "other-separator", p, size) {
+				return
+			}
+			// two of them, so that the count of blanks stays even
+			at2 := 1 + rng.Intn(len(w)-1)
+			if at2 != at {
+				lo, hi := at, at2
+				if lo > hi {
+					lo, hi = hi, lo
+				}
+				p2 := strings.Join(w[:lo], " ") + sep + strings.Join(w[lo:hi], " ") + sep + strings.Join(w[hi:], " ")
+				if !c10Judge(r, codec, "other-separator", p2, size) {
+					return
+				}
+			}
+		}
+		// canary: after all those refusals a valid phrase must still decode to its bytes
+		if !c10Judge(r, codec, "valid-after-refusals", phrase, size) {
+			return
 		}
 		// words swapped: still well-formed, must decode to what the definition says (not a refusal)
 		w := cp()
